@@ -1,4 +1,5 @@
 import RscelModel.Lemmas.Seq2
+import RscelModel.Lemmas.Unres
 import RscelModel.Lemmas.BuiltinsData
 import RscelModel.Theorems.C05Compile
 /-
@@ -18,8 +19,9 @@ call-depth budget.
   * `match` type patterns naming a type of the type table (`case int:` is `type(s) == int`).
 
 Main statements (all for every `B` with `BuiltinsOK B`: built-ins map data to data; every environment with
-`StdEnv B env`: no stored programs, no functions bound by the caller, parameters bound to data — no
-identifier or code block inside — and not named like a built-in function or macro):
+`StdEnv B env`: a run-time environment (not the compiler's own interpreter, the only one whose
+unresolved-name flag is read) without stored programs, no functions bound by the caller, parameters bound to
+data — no identifier or code block inside — and not named like a built-in function or macro):
   `compile_correct2_partial`  `depth e ≤ b`, `b < maxDepth` ⊢ the emitted code `Runs` (Lemmas/Seq.lean) to
                               `evalSpec B e env` with `rec := runAt B b`: nested blocks (arguments, macro
                               bodies, f-string segments) are run by the callback one level down, and the
@@ -37,9 +39,12 @@ identifier or code block inside — and not named like a built-in function or ma
                               `has_true_of_value`, `has_false_of_absent`, `coalesce_laziness`,
                               `index_spec`, `field_spec`, `map_literal_spec`, `evalSpec_data`.
 
-How the fold case is proved: the compile-time run is the same theorem at level `maxDepth - 1` in the
-environment `compileEnv`; `evalSpec` does not distinguish environments that agree on the identifiers of
-a closed tree (`Irr`, `agree_of_closed`, carried through the same induction).
+How the fold case is proved: `check_for_const` folds only when its run returned a value (and, since fix
+4d08d12, met no name it could not resolve — the fold is then simply not taken, which needs no proof).  The
+unresolved-name flag is write-only for the VM (`Lemmas/Unres.lean`: `runAt_untracked`), so that run returns
+what the run in `compileEnv0` — the compile-time bindings without the flag, a standard environment —
+returns, and that is the same theorem at level `maxDepth - 1`; `evalSpec` does not distinguish environments
+that agree on the identifiers of a closed tree (`Irr`, `agree_of_closed`, carried through the same induction).
 
 STILL NOT covered (`…_partial`):
   * a call whose callee is not a name: `(e)(..)`, `e[i](..)`, `f(..)(..)`;
@@ -47,8 +52,10 @@ STILL NOT covered (`…_partial`):
     bound method on the stack; it is no value);
   * `has` / `coalesce` in method position (`o.has(..)`), loop variables (and parameters) that have the
     name of a built-in function or macro, type patterns naming no table type (`list`, `object`, `null`):
-    for the first two `check_for_const` of the modelled tree folds wrongly (two defects found by this
-    proof: `dyn([[1].has(1)])`, `[1].map(size, dyn([size]))`), see `methodOK` / `loopVarOK` in Model/Spec.lean;
+    for the first two the compile-time run of `check_for_const` meets a name it cannot resolve (two defects
+    found by this proof: `dyn([[1].has(1)])`, `[1].map(size, dyn([size]))`; repaired by fix 4d08d12 — such a
+    run is no longer folded — and the model follows, `markUnres`), but the proof's invariant `Irr` does not
+    hold for these trees and does not see the flag, see `methodOK` / `loopVarOK` in Model/Spec.lean;
   * a macro whose loop-variable argument is not an identifier;
   * functions bound by the caller and hence call logs (the log is shown to stay as it is), identifiers
     naming stored programs, environments without bindings;
@@ -568,9 +575,10 @@ theorem AgreeOn.bind {ids : List Str} {e1 e2 : Env} (h : AgreeOn B ids e1 e2) (x
   · intro n hn; rw [fnKind_bind, fnKind_bind]; exact h.kind n hn
   · intro o name hm; rw [methodKind_bind, methodKind_bind]; exact h.meth o name hm
 
-theorem compileEnv_std : StdEnv B compileEnv :=
-  { noProgs := fun n => rfl, binds := rfl, noUser := rfl,
-    params := fun n v h => by simp [Env.getParam, compileEnv, lookup] at h,
+/-- The compile-time bindings (without the unresolved-name flag) are a standard environment. -/
+theorem compileEnv_std : StdEnv B compileEnv0 :=
+  { noProgs := ⟨fun n => rfl, rfl⟩, binds := rfl, noUser := rfl,
+    params := fun n v h => by simp [Env.getParam, compileEnv0, Env.untracked, compileEnv, lookup] at h,
     noShadow := fun n _ => rfl }
 
 theorem StdEnv.bind {env : Env} (h : StdEnv B env) {x : Str} (hx : callableName B x = false) {v : Val} (hv : Data v) :
@@ -646,11 +654,11 @@ theorem closed_append {a b : List Str} : Closed B (a ++ b) ↔ Closed B a ∧ Cl
 
 /-- What closed code can observe is the same at compile time and in every standard environment. -/
 theorem agree_of_closed {ids : List Str} (hc : Closed B ids) {env : Env} (henv : StdEnv B env) :
-    AgreeOn B ids compileEnv env := by
+    AgreeOn B ids compileEnv0 env := by
   refine ⟨rfl, henv.binds, ?_, ?_, ?_⟩
   · intro n hn
     obtain ⟨hb, _⟩ := closed_mem hc hn
-    simp only [resolveIdent, Env.getType, henv.binds, compileEnv, if_true]
+    simp only [resolveIdent, Env.getType, henv.binds, compileEnv0, Env.untracked, compileEnv, if_true]
     cases htn : typeByName n with
     | some t => rfl
     | none =>
@@ -680,10 +688,10 @@ theorem agree_of_closed {ids : List Str} (hc : Closed B ids) {env : Env} (henv :
           cases htn : typeByName n with
           | none => simp [htn] at hb
           | some t => exact typeName_not_macro htn
-      have hm : env.isMacro n = compileEnv.isMacro n := by
-        rw [isMacro_eq_compile henv.binds (Or.inr hcase), isMacro_eq_compile (env := compileEnv) rfl (Or.inr hcase)]
+      have hm : env.isMacro n = compileEnv0.isMacro n := by
+        rw [isMacro_eq_compile henv.binds (Or.inr hcase), isMacro_eq_compile (env := compileEnv0) rfl (Or.inr hcase)]
       rw [hm]
-      simp [Env.getType, henv.binds, compileEnv]
+      simp [Env.getType, henv.binds, compileEnv0, Env.untracked, compileEnv]
   · intro o name hm
     unfold methodKind
     cases hfe : fieldEntry o name with
@@ -698,7 +706,7 @@ theorem agree_of_closed {ids : List Str} (hc : Closed B ids) {env : Env} (henv :
           simp only [methodOK, hf, Option.isSome_none, Bool.false_or, Bool.not_eq_true', Bool.or_eq_false_iff,
             decide_eq_false_iff_not] at hm
           exact hm
-        rw [isMacro_eq_compile henv.binds (Or.inl h12), isMacro_eq_compile (env := compileEnv) rfl (Or.inl h12)]
+        rw [isMacro_eq_compile henv.binds (Or.inl h12), isMacro_eq_compile (env := compileEnv0) rfl (Or.inl h12)]
 
 end
 
@@ -810,23 +818,25 @@ theorem cgood_checkForConst {d : Nat} {ids : List Str} {code : List Instr} {valf
     CGood B d (checkForConst B ids code) valf := by
   intro b env henv hd hb
   obtain ⟨hr, hdat⟩ := hU b env henv hd hb
-  unfold checkForConst
-  simp only
-  split
-  · exact ⟨hr, fun c hc => (by cases hc), hdat⟩
-  · rename_i hcl
-    have hclosed : Closed B ids := by simpa [Closed] using hcl
-    split
-    · rename_i v hv
-      have h31 := (hU 31 compileEnv compileEnv_std (by unfold maxDepth at hb; omega) (by decide)).1
-      have hrun : runAt B maxDepth compileEnv code true [] = outOf (valf compileEnv) [] :=
-        runAt_of_runs (compileEnv_std (B := B)).noProgs 31 h31 []
-      rw [hrun] at hv
-      obtain ⟨h1, _⟩ := outOf_res_ok hv
-      have hveq : v = valf env := by rw [← h1]; exact hirr _ _ (agree_of_closed hclosed henv)
-      subst hveq
-      exact ⟨runs_push hdat.plain, fun c hc => (by cases hc; rfl), hdat⟩
-    · exact ⟨hr, fun c hc => (by cases hc), hdat⟩
+  rcases checkForConst_cases B ids code with hcf | ⟨v, hcf, hv, _⟩
+  · rw [hcf]; exact ⟨hr, fun c hc => (by cases hc), hdat⟩
+  · rw [hcf]
+    have hclosed : Closed B ids := by
+      unfold checkForConst at hcf
+      simp only at hcf
+      split at hcf
+      · cases hcf
+      · rename_i hcl; simpa [Closed] using hcl
+    -- the run that recorded the flag returned what the run in the standard environment `compileEnv0` returns
+    rw [compileRun_untracked] at hv
+    have h31 := (hU 31 compileEnv0 compileEnv_std (by unfold maxDepth at hb; omega) (by decide)).1
+    have hrun : runAt B maxDepth compileEnv0 code true [] = outOf (valf compileEnv0) [] :=
+      runAt_of_runs (compileEnv_std (B := B)).noProgs 31 h31 []
+    rw [hrun] at hv
+    obtain ⟨h1, _⟩ := outOf_res_ok hv
+    have hveq : v = valf env := by rw [← h1]; exact hirr _ _ (agree_of_closed hclosed henv)
+    subst hveq
+    exact ⟨runs_push hdat.plain, fun c hc => (by cases hc; rfl), hdat⟩
 
 theorem fnKind_macro {env : Env} {f : Str} {this : Val} (h : fnKind B env f = .macro_ this) :
     env.isMacro f = true := by
